@@ -351,7 +351,7 @@ def inst_tokens(inst):
 
 VARIANTS = ('compact', 'spaced', 'lines', 'cmt_structural', 'cmt_before_top', 'zero_ids')   # + 'cmt_between': comments only on their own lines between instances
 
-COMMENTS_BENIGN = ['/* c */', '/**/', '/*\n multi\n line */', '/* * / */', '/* a, b */']
+COMMENTS_BENIGN = ['/* c */', '/**/', '/*\n multi\n line */', '/* * / */', '/* a, b */', '/*/ banner /*/', '/***/', '/*/*/', '/* ** // */']
 COMMENTS_HOSTILE = ["/* it's */", '/* ; */', '/* #99 = X(1); */', '/* ( */', '/* ) */', '/* ENDSEC; */']
 COMMENTS = COMMENTS_BENIGN + COMMENTS_HOSTILE
 # inside an instance's parameter list (and before its ';') a comment containing ' or ; derails the first-pass
